@@ -45,6 +45,7 @@ def units(ctx):
                 for i in range(len(_reduced4(ctx))):
                     yield ("quads", vi, dne, i)
     yield from hist.hist_units()
+    yield ("long",)
 
 
 def _classes(ctx):
@@ -71,6 +72,14 @@ def _mk(notes):
 
 
 def gen_cases(unit, ctx):
+    if unit[0] == "long":
+        for n in (16, 48, 120):
+            for step in (5, 7, 12):
+                for vals in ([4], [4, 8], [3, 6, 12], None):
+                    for dne in (False, True):
+                        ns = lib.long_desc(n, ctx["p"] - 2, (ctx["ch"][0], ctx["ch"][1], 9), step, lens=(3, 4, 5, 6, 11, 2))
+                        yield {"values": vals, "dne": dne, "notes": [list(x) for x in ns], "events": [["ts", 0, 3, 4]]}
+        return
     if unit[0] == "hist":
         for h in hist.hist_of_unit(unit):
             for vals in ([4, 8], [3, 6, 12], None):
